@@ -46,6 +46,11 @@ CHECKS = {
         text='Exploration with an independent executable model as oracle. Every (pattern, name) pair up to the length bound over the quoting-relevant alphabet is executed against the real qnmatch and compared with a reference matcher written from the manual; rule lists are fed through the real option parser into a live System and every object\'s privacyClass / isVisible is compared with the reference precedence. Held on the executions run (bounded space completed), not a proof.',
         note='Trusts the reference matcher (vf/ref/glob_ref.py) as a reading of the manual; forms the manual does not define are executed for totality only.',
         ref='4/C13'),
+    'C01': dict(
+        technique='process-level monitor around the real driver.main run in-process: exception capture keyed by mechanism, exit status, conservation over the input files (every file a processed module or reported by a message naming it; modules recorded at creation by a wrapper of System.analyzeModule), artefact inventory with completeness of every page, sys.addaudithook monitor for writes outside the output directory, differential run for the unparsable-neighbour clause, CPU-time watchdog confirmed alone, and a sample repeated as `python -X dev -m pydoctor` subprocesses',
+        text='Exploration. Workloads: real packages of the stdlib, site-packages and pydoctor itself under every docformat; G-WILD packages (random ast over all statement, expression, pattern and type-parameter classes with the names pydoctor interprets, fuzzed docstrings); G-PROJ projects; MUT byte/line/token/encoding mutations of generated and real files with surely-unparsable siblings; about fifty directed stress trees (operator chains up to 3000 terms, nesting, huge literals, lone surrogates, odd __all__/__docformat__/imports/decorators/annotations, name clashes, odd file names and encodings, broken __init__.py, duplicate and multiple roots, symlink loop, 400-module import chain).',
+        note='Option errors (exit 1) are outside the workload. Two inputs with the same qualified name cannot both be documented; the superseded one is accepted when a duplicate message is issued. Pages of objects that are registered but unreachable from the roots are a known finding shared with C02/C11.',
+        ref='4/C01'),
     'C02': dict(
         technique='invariant monitors at hooks: icontract postconditions (with OLD snapshots) attached from the harness to System.addObject / handleDuplicate / Documentable.reparent check the touched subtree after every registry mutation; whole-system invariants R1-R9 at quiescence; processing orders injected at the boundary',
         text='Exploration. Generated projects whose analysis history mixes re-export moves, duplicate definitions (also inside classes and of moved names), a class re-exported under a submodule name, import cycles, nested classes, field attributes and zope.interface declarations are analysed under several reachable processing orders, and real packages are analysed; the monitors evaluate the registry/tree invariants of the statement where the state becomes observable (at return of each mutation) and on the whole system after process().',
